@@ -4,7 +4,7 @@ symbolically for all request values and behaviour vectors; then validated agains
 import itertools, json, os, random, subprocess, sys, time, traceback
 from concurrent.futures import ProcessPoolExecutor
 import z3
-from .common import Result, NCPU, write_replay, open_findings, sub_env, PY
+from .common import Result, NCPU, write_replay, open_findings, sub_env, PY, VERIF
 from . import e2_config as EC
 from . import e3_chainir as E3
 from .e2_setalg import U, BUILTINS, REQ_BUILTINS
@@ -321,7 +321,7 @@ def run_cells(ncells, seed, maxmw, nvalid, hashseeds=(0,)):
     for i, hs in enumerate(hashseeds):
         env = sub_env({'PYTHONHASHSEED': str(hs)})
         procs.append((hs, subprocess.Popen([PY, '-m', 'vlib.e3_driver', str(per), str(seed * 31 + i), str(maxmw), str(nvalid)],
-                                           cwd='/verif', env=env, stdout=subprocess.PIPE, stderr=subprocess.PIPE, text=True)))
+                                           cwd=VERIF, env=env, stdout=subprocess.PIPE, stderr=subprocess.PIPE, text=True)))
     outs = []
     for hs, p in procs:
         so, se = p.communicate()
